@@ -112,6 +112,12 @@ def run_job(job, rh, vh, use_cache=True):
     with mem_slot(job.mem_gb):
         r = build.run_cbmc(g, job.harness, defines=job.all_defines(), unwind=job.unwind, unwindset=uws,
                            timeout=job.timeout, mem_gb=job.mem_gb, function=job.function, extra=extra)
+    if r['status'] in ('timeout', 'oom') and not os.environ.get('VERIF_NO_RETRY'):
+        # resource limits depend on the load of the machine: one retry with twice the time and 1.5x the memory
+        res['retried_after'] = r['status']
+        with mem_slot(min(job.mem_gb * 1.5, 40)):
+            r = build.run_cbmc(g, job.harness, defines=job.all_defines(), unwind=job.unwind, unwindset=uws,
+                               timeout=job.timeout * 2, mem_gb=min(job.mem_gb * 1.5, 40), function=job.function, extra=extra)
     res.update(cbmc_status=r['status'], solver_wall_s=round(r['time'], 2), n_props=len(r['props']),
                steps=r.get('steps'), vars=r.get('vars'), clauses=r.get('clauses'), cmd=r['cmd'], rss_mb=r.get('rss_mb'), cap_mb=int(job.mem_gb * 1024))
     res['prop_list'] = [p[1] for p in r['props']]
@@ -265,14 +271,16 @@ def main(registry):
             results.append(r)
             sys.stderr.write('[%s] %-40s %-12s %6.1fs %s\n' % (prop, j.name, r['status'], r.get('wall_s', 0), '(cached)' if r.get('cached') else ''))
     results.sort(key=lambda r: r['job'])
-    violations = []; known = []; trouble = []
+    violations = []; known = []; trouble = []; undecided = []
     for r in results:
         st = r['status']
         if st == 'violation':
             f = match_finding(findings, prop, r['job'], r.get('failed', []))
             if f: known.append((f, r))
             else: violations.append(r)
-        elif st in ('error', 'vacuous', 'inconclusive', 'undecided'):
+        elif st == 'undecided':
+            undecided.append(r)
+        elif st in ('error', 'vacuous', 'inconclusive'):
             trouble.append(r)
     seen = set()
     for f, r in known:
@@ -285,10 +293,16 @@ def main(registry):
         print('  ' + (r.get('detail') or '')[:500])
     for r in trouble:
         print('%s job=%s: %s' % (r['status'].upper(), r['job'], (r.get('detail') or '')[:1500]))
-    write_evidence(prop, a.tier, seed, results, time.time() - t0, violations, known, trouble)
+    for r in undecided:
+        print('UNDECIDED job=%s: %s after one retry with doubled limits -- no verdict, NOT counted as explored (listed under coverage.undecided in the evidence)' % (r['job'], r.get('detail')))
+    # a few queries without a verdict (time / memory depend on the machine) do not make the check fail: the property held on
+    # everything that was explored, and the evidence says what was not.  Many of them mean the machinery is not working.
+    too_many = len(undecided) > max(2, len(results) // 10)
+    if too_many: trouble = trouble + undecided
+    write_evidence(prop, a.tier, seed, results, time.time() - t0, violations, known, trouble + ([] if too_many else undecided))
     ok = sum(1 for r in results if r['status'] == 'ok')
     print('%s: %d jobs, %d ok, %d known-finding, %d violation, %d undecided/error; %.1fs' %
-          (prop, len(results), ok, len(known), len(violations), len(trouble), time.time() - t0))
+          (prop, len(results), ok, len(known), len(violations), len(trouble) + (0 if too_many else len(undecided)), time.time() - t0))
     if violations: return 1
     if trouble: return 2
     return 0
